@@ -731,6 +731,53 @@ fn case_degenerate_config(out: &mut CaseOut, rng: &mut Rng, idx: u64) {
     out.sample = Some(json!({"family": "degenerate-config", "config": cfg.describe()}));
 }
 
+/// Closing a database that has read a lot: tens of thousands of small blocks go through the block
+/// cache (reads that fill it), then the database is closed and the last handle to its options -
+/// and with it the cache - is dropped on an ordinary thread (default stack size). Everything that
+/// was cached is freed there; that, too, has to come back.
+fn case_big_cache(out: &mut CaseOut, rng: &mut Rng) {
+    let d = director();
+    d.reset(rng.next_u64());
+    let cfg = gen::Config { memtable: 1 << 20, file: 2 << 20, block: 16, reuse: true };
+    let fs = SimFs::from_image(&dbutil::root_image());
+    let mut sess = Session::new(fs, cfg);
+    sess.fill_cache = true;
+    if let Err(e) = sess.open() {
+        out.violate("C09/open-failed", json!({"error": e}));
+        return;
+    }
+    let n = rng.range(50_000, 70_000);
+    for i in 0..n {
+        if sess.put(format!("key{i:07}").as_bytes(), format!("value-{i:07}").as_bytes()).is_err() {
+            out.inconclusive("degenerate: load refused");
+            return;
+        }
+    }
+    sess.compact(None, None);
+    sess.wait_quiescent(Duration::from_secs(60));
+    let scanned = sess.scan(None).map(|e| e.len()).unwrap_or(0);
+    let _ = sess.get(b"key0000100");
+    sess.close();
+    drop(sess);
+    // the options of this case (and their block cache) are dropped on a thread of their own
+    let t0 = Instant::now();
+    let dropper = std::thread::Builder::new().name("c09-options-dropper".into()).spawn(|| {
+        let _g = watch::enter("drop(options and block cache)");
+        dbutil::new_case();
+    }).unwrap();
+    let joined = dropper.join();
+    if joined.is_err() {
+        out.violate("C09/dropping-the-block-cache-panicked", json!({"entries_scanned": scanned}));
+    }
+    out.max("block_cache_drop_ms", t0.elapsed().as_millis() as u64);
+    out.add("entries_read_through_the_block_cache", scanned as u64);
+    judge_bg_panics(out, "C09");
+    if scanned as u64 == n {
+        out.nontrivial(format!("big-cache/{}k-blocks", n / 10_000 * 10));
+    }
+    out.sample = Some(json!({"family": "close-after-filling-the-block-cache", "entries": n, "max_block_size": 16}));
+}
+
 /// "For every workload": cases of other properties' checks are run here for their liveness alone -
 /// the snapshot-heavy histories and the split hunter of C03 (outputs cut between two versions of
 /// one user key, partial manual compactions), the compaction shapes of C07 (slowed merges, backlog
@@ -788,6 +835,7 @@ pub fn run_case(tier: &str, seed: u64, idx: u64) -> CaseOut {
         4 if idx % 12 == 10 => case_open_with_logging(&mut out, &mut rng),
         0 if idx % 12 == 6 => case_flush_into_gap(&mut out, &mut rng),
         1 if idx % 12 == 7 => case_close_with_queued_task(&mut out, &mut rng),
+        5 if idx % 24 == 11 => case_big_cache(&mut out, &mut rng),
         0 => case_descriptors(&mut out, &mut rng),
         1 | 2 => case_history(&mut out, &mut rng, idx, tier),
         _ => case_stress(&mut out, &mut rng, tier),
